@@ -27,7 +27,7 @@ func maskVF(s string) string {
 	return s
 }
 
-var maskBarrierDetails = true
+var maskBarrierDetails = false
 
 // payToSX converts details.full_details into the model's (Pay, hid) pair.
 func payToSX(a *types.Any) (pay SX, hid []SX) {
@@ -78,11 +78,12 @@ func detToSX(d *errorspb.EncodedErrorDetails) (SX, []SX) {
 	pay, hid := payToSX(d.FullDetails)
 	fam := strings.TrimSuffix(d.ErrorTypeMark.FamilyName, unkSuffix)
 	rep := d.ReportablePayload
-	if maskBarrierDetails {
-		rep = make([]string, len(d.ReportablePayload))
-		for i, s := range d.ReportablePayload {
-			rep[i] = strings.ReplaceAll(maskVF(s), unkSuffix, "")
+	rep = make([]string, len(d.ReportablePayload))
+	for i, s := range d.ReportablePayload {
+		if maskBarrierDetails {
+			s = maskVF(s)
 		}
+		rep[i] = strings.ReplaceAll(s, unkSuffix, "")
 	}
 	return L(Sym("D"), Str(d.OriginalTypeName), Str(fam), Str(d.ErrorTypeMark.Extension), Strs(rep), pay), hid
 }
